@@ -17,17 +17,20 @@ from catalogue import mps_factory as F
 PROPERTY = 'C09'
 LEVEL = 'model_checking'
 BOUNDS = {
-    'quick': 'L<=3 (infinite: unit cell 2, window of 2 cells), chi<=2 (one chi=3 bond), SpinHalfSite(None,Sz), FermionSite(None,N), '
+    'quick': 'canonical_form is stubbed (recording stub / no-op) wherever a routine ends with it; L<=3 (infinite: unit cell 2, window of 2 cells), chi<=2 (one chi=3 bond), SpinHalfSite(None,Sz), FermionSite(None,N), '
              'stored forms B, A and mixed, every site index / shift / segment chosen by a symbolic selector',
     'thorough': 'L=4 chi 1,2,3,2,1, SpinHalfFermionSite(N,Sz), unit cell 3, group_sites(n=3)',
 }
-OUTSIDE = ('everything that performs a factorisation: apply_local_op with n-site operators (from_full), swap_sites / permute_sites / '
+OUTSIDE = ('canonical_form itself (factorisation chain): in the autodetect.* cases it is replaced by a recording stub in BOTH modes and only '
+           'the request (whether, with which renormalize argument) and the tensors before canonicalisation are decided; '
+           'everything that performs a factorisation: apply_local_op with n-site operators (from_full), swap_sites / permute_sites / '
            'compute_K, group_split, compress / compress_svd, enlarge_chi (QR), subspace_expansion, perturb, extract_enlarged_segment '
            '(calls canonical_form_finite before the boundary bookkeeping that the read candidate defect is in), canonical_form itself: '
            'where a routine ends with canonical_form (add, non-unitary apply_*), that call is replaced by a no-op in the symbolic run and '
            'the state *before* canonicalisation is compared (the concrete replay runs the real canonical_form)')
 STUBS = ['BLAS contract stub', 'numpy facade for tenpy.networks.mps', 'Array.conj hook',
-         'MPS.canonical_form / canonical_form_finite replaced by a no-op in the symbolic run of the cases add / apply.nonunitary']
+         'MPS.canonical_form / canonical_form_finite replaced by a no-op in the symbolic run of the cases add / apply.nonunitary',
+         'psi.canonical_form replaced by a recording stub (symbolic and concrete mode) in the autodetect.* cases']
 ASSUMPTIONS = ['floats are reals', 'singular values S = t*t > 0', 'apply_*: the operator does not annihilate the tensor (norm >= 1e-12; otherwise '
                'the documented ValueError is raised)']
 
@@ -156,6 +159,91 @@ def apply_op_case(ctx, **p):
         psi.test_sanity()
     except Exception as e:  # noqa
         ctx.fail(f'{mode}: the MPS passes its own test_sanity afterwards', f'{type(e).__name__}: {str(e)[:100]}')
+
+
+class _Recorder:
+    """stands in for psi.canonical_form (instance attribute, both modes): canonical_form itself is a chain of
+    factorisations and outside the claim; what is decided is *whether* and *how* it is requested"""
+
+    def __init__(self):
+        self.calls = []
+
+    def __call__(self, *a, **kw):
+        self.calls.append((a, kw))
+
+
+def _is_unitary(M):
+    return float(np.max(np.abs(M @ M.conj().T - np.eye(M.shape[0])))) < 1.e-12
+
+
+def autodetect_case(ctx, **p):
+    """the `unitary=None` auto-detection of apply_product_op / apply_local_op and the canonicalize flag of apply_local_term"""
+    sm = _build(ctx, p)
+    psi = sm.psi
+    L = sm.L
+    rec = _Recorder()
+    psi.canonical_form = rec
+    nrm = ctx.real('norm', pos=True)
+    psi.norm = nrm
+    names = p.get('names')
+    mode = p['mode']
+    renorm = bool(ctx.choice('renormalize', 2))
+    if mode == 'product':
+        flag = [None, True, False][ctx.choice('unitary_arg', 3)] if p.get('explicit') else None
+        ops = [names[ctx.choice(f'op{i}', len(names))] for i in range(L)]
+        Ms = [F.op_matrix(sm.sites[i], nm) for i, nm in enumerate(ops)]
+        psi.apply_product_op(list(ops), unitary=flag, renormalize=renorm)
+        any_nonunitary = any(not _is_unitary(M) for M in Ms)
+        ctx.note('lists_with_nonunitary_after_unitary', int(any_nonunitary and _is_unitary(Ms[[k for k, nm in enumerate(ops) if nm != 'Id'][0]])))
+        if flag is None:
+            if any_nonunitary:
+                ctx.prove(len(rec.calls) == 1, 'apply_product_op(unitary=None): canonical_form requested when some operator is non-unitary')
+            else:
+                # (the tree also canonicalises when every operator is unitary: superfluous but state and norm are right, so
+                # C09 does not demand the converse; see notes/C09.md)
+                ctx.prove(len(rec.calls) <= 1, 'apply_product_op(unitary=None): at most one canonical_form request')
+        else:
+            ctx.prove(len(rec.calls) == (0 if flag else 1), 'apply_product_op(unitary=True/False): canonical_form requested iff unitary is False')
+        for i in range(L):
+            got = psi._B[i].transpose(['vL', 'p', 'vR']).to_ndarray()
+            ctx.prove_eq(got, np.tensordot(Ms[i], sm.B(i), axes=(1, 1)).transpose(1, 0, 2), 'apply_product_op: tensor after == op . B (B form)')
+    elif mode == 'local':
+        i = ctx.choice('i', L)
+        nm = names[ctx.choice('op', len(names))]
+        M = F.op_matrix(sm.sites[i], nm)
+        try:
+            psi.apply_local_op(i, nm, unitary=None, renormalize=renorm, understood_infinite=True)
+        except ValueError as e:
+            if 'destroys state' in str(e):
+                ctx.prove(True, 'documented: refuses operators that annihilate the tensor')
+                return
+            raise
+        ctx.prove(len(rec.calls) == (0 if _is_unitary(M) else 1), 'apply_local_op(unitary=None): canonical_form requested iff the operator is non-unitary')
+        for j in range(L):
+            got = psi._B[j].transpose(['vL', 'p', 'vR']).to_ndarray()
+            want = sm.Tdense(j) if j != i else np.tensordot(M, sm.Tdense(j), axes=(1, 1)).transpose(1, 0, 2)
+            ctx.prove_eq(got, want, 'apply_local_op: stored tensor after == op . stored tensor on site i, untouched elsewhere')
+        ctx.prove(list(psi.form) == list(sm.forms), 'apply_local_op keeps the recorded forms')
+    elif mode == 'term':
+        terms = p['terms']
+        term = [tuple(t) for t in terms[ctx.choice('term', len(terms))]]
+        canon = bool(ctx.choice('canonicalize', 2))
+        try:
+            psi.apply_local_term(term, canonicalize=canon, renormalize=renorm)
+        except ValueError as e:
+            if 'destroys state' in str(e):
+                ctx.prove(True, 'documented: refuses operators that annihilate the tensor')
+                return
+            raise
+        ctx.prove(len(rec.calls) == (1 if canon else 0), 'apply_local_term: canonical_form requested iff canonicalize')
+        w0, w1 = 0, L - 1
+        M, par = F.term_operator(sm, term, w0, w1)
+        ctx.prove_eq(dense_of(psi, w0, w1), _apply_dense(sm.theta(w0, w1) * nrm, M, 0, L), 'apply_local_term: dense state before canonicalisation == term applied')
+    else:
+        raise ValueError(mode)
+    for a, kw in rec.calls:
+        ctx.prove(a == () and kw == {'renormalize': renorm}, 'canonical_form is called with the renormalize argument of the caller')
+    ctx.prove(psi.norm is nrm, 'the norm attribute is only changed by canonical_form')
 
 
 def inversion_case(ctx, **p):
@@ -357,6 +445,21 @@ def CASES(tier, seed):
             add(f'apply_product_op[forms={fn_}][{gn}]', 'apply_op_case', g, mode='product', names=unitary_names, forms=forms)
             if bc != 'infinite':
                 add(f'apply_local_term[forms={fn_}][{gn}]', 'apply_op_case', g, mode='term', terms=terms, forms=forms)
+        # auto-detection of unitarity / canonicalize flag (canonical_form replaced by a recording stub)
+        if spinlike:
+            alphabet = ['Sigmaz', 'Id', 'Sz', 'Sp', 'Sm'] + (['Sigmax'] if kind in ('spin', 'spinP') else [])
+        elif kind.startswith('ferm'):
+            alphabet = ['Id', 'N', 'dN']  # ('JW' carries a string: apply_op_case)
+        else:
+            alphabet = ['Id', 'Nu', 'Sz'] if kind.startswith('shf') else ['Id']
+        if kind != 'spin+ferm':
+            add(f'autodetect.apply_product_op[{gn}]', 'autodetect_case', g, mode='product', names=alphabet)
+            add(f'autodetect.apply_product_op.explicit_flag[{gn}]', 'autodetect_case', g, mode='product', names=alphabet[:3], explicit=True)
+            add(f'autodetect.apply_local_op[{gn}]', 'autodetect_case', g, mode='local', names=alphabet, forms=mixed)
+            cases[-1]['opts']['branch_timeout_ms'] = 1500
+            if bc != 'infinite':
+                add(f'autodetect.apply_local_term[{gn}]', 'autodetect_case', g, mode='term', terms=terms)
+                cases[-1]['opts']['branch_timeout_ms'] = 1500
         if bc == 'finite':
             add(f'apply_local_op.nonunitary[{gn}]', 'apply_op_case', g, mode='local_named', names=nonunitary, stub_canonical=True)
             add(f'add[{gn}]', 'add_case', g, stub_canonical=True)
